@@ -42,6 +42,31 @@ def obligations(tier, seed):
 
             obs.append(Ob(f"C07/regenerate[{sn}]/{nm}", f, (gfi.KEY, jax.random.key(1), P.args, P.example_vals()), assume=lambda k, k2, a, v, A=A: A(a, v),
                           note="unselected sites unchanged; weight == reference newscore-oldscore; empty selection => same trace, weight 0"))
+    # ---- regenerate issued together with CHANGED arguments: unselected sites keep their values but are re-scored under the
+    # new arguments; the new trace records the new arguments; weight == reference newscore(new args) - oldscore(old args)
+    for nm in names:
+        P = cat[nm]()
+        if "regenerate" not in P.supports or any(k in nm for k in ("switch", "or_else", "mix", "composed")):
+            continue
+        A = gfi.base_assume(P, in_range=False)
+        args2 = jax.tree_util.tree_map(lambda x: x + 0.25 if jnp.issubdtype(jnp.asarray(x).dtype, jnp.floating) else x, P.args)
+        for sn, sel, member in sel_cases(P, tier)[:3]:
+            def fa(key, key2, args, vals, args2, P=P, sel=sel, member=member):
+                tr, _ = P.gf.importance(key, P.chm(vals), args)
+                tr2, w, rd, bwd = Regenerate(sel).edit(key2, tr, Diff.unknown_change(args2))
+                old, new = view(P, tr.get_choices()), view(P, tr2.get_choices())
+                newvals = [g[0] if g[0] is not None else s_.example for g, s_ in zip(P.read(tr2.get_choices()), P.sites)]
+                r_old, r_new = P.ref(args, vals), P.ref(args2, newvals)
+                lhs = [w, tr2.get_score(), PG.norm_ret(P, tr2.get_retval()), tr2.get_args()]
+                rhs = [r_new.score - r_old.score, r_new.score, PG.norm_ret(P, r_new.retval), args2]
+                for i, m in enumerate(member):
+                    if not m:
+                        lhs.append(new[i]); rhs.append(old[i])
+                return lhs, rhs
+
+            obs.append(Ob(f"C07/regenerate[{sn}]+args/{nm}", fa, (gfi.KEY, jax.random.key(1), P.args, P.example_vals(), args2), assume=lambda k, k2, a, v, a2, A=A: A(a, v) + A(a2),
+                          note="Regenerate(sel) with changed arguments: unselected values kept and re-scored under the NEW arguments, trace records the new arguments, weight == reference score change"))
+
     # ---- "selected choices are redrawn from their prior given the CURRENT values of their parents": every leaf of the new trace
     # is either its old value or the leaf sampler applied to the reference parameters at the NEW trace's values, under a key
     # of the edit (re-keying as in C04)
